@@ -76,24 +76,47 @@ def c03_r1(ctx: Ctx, rule):
     return res
 
 
+def _returns_fresh_key(ctx: Ctx, q, table):
+    """Every return of function q yields a name with the must-fact `name not in <table>`."""
+    fi = ctx.fn(q)
+    rets = [n for n in walk_function(fi.node) if isinstance(n, ast.Return) and n.value is not None]
+    if not rets or not all(isinstance(r.value, ast.Name) for r in rets):
+        return False
+    if any(isinstance(n, ast.Assign) and any(isinstance(t, ast.Subscript) for t in n.targets) for n in walk_function(fi.node)):
+        return False
+    g = get_cfg(ctx, q)
+    facts = notin_facts(ctx, q, g, set(), table)
+    return all(("notin", r.value.id) in facts[node_of(g, r).id] for r in rets)
+
+
 def unused_prefix_summary(ctx: Ctx):
-    """Names of NamespaceManager methods each of whose returns yields a key known `not in self`."""
+    """Names of NamespaceManager methods each of whose returns yields a key known `not in self` - directly, or by
+    delegating to a module function that is handed `self` as the table to test against."""
     good = set()
     for mname, q in ctx.p.classes[NSM].methods.items():
         fi = ctx.fn(q)
-        rets = [n for n in walk_function(fi.node) if isinstance(n, ast.Return) and n.value is not None]
-        if not rets or not all(isinstance(r.value, ast.Name) for r in rets):
-            continue
-        if any(isinstance(n, ast.Assign) and any(isinstance(t, ast.Subscript) for t in n.targets) for n in walk_function(fi.node)):
-            continue
-        g = get_cfg(ctx, q)
-        facts = notin_facts(ctx, q, g, set())
-        if all(("notin", r.value.id) in facts[node_of(g, r).id] for r in rets):
+        if _returns_fresh_key(ctx, q, "self"):
             good.add(mname)
+            continue
+        rets = [n for n in walk_function(fi.node) if isinstance(n, ast.Return) and n.value is not None]
+        if rets and all(isinstance(r.value, ast.Call) and isinstance(r.value.func, ast.Name) for r in rets):
+            ok = True
+            for r in rets:
+                tgt = ctx.p.resolve_name(fi.module, r.value.func.id)
+                if not (tgt and tgt[0] == "func"):
+                    ok = False
+                    break
+                cf = ctx.fn(tgt[1])
+                pos = [i for i, a in enumerate(r.value.args) if norm(a) == "self"]
+                if len(pos) != 1 or pos[0] >= len(cf.params) or not _returns_fresh_key(ctx, tgt[1], cf.params[pos[0]]):
+                    ok = False
+                    break
+            if ok:
+                good.add(mname)
     return good
 
 
-def notin_facts(ctx: Ctx, q, g, fresh_key_methods):
+def notin_facts(ctx: Ctx, q, g, fresh_key_methods, table="self"):
     fi = ctx.fn(q)
     names = {n.id for n in ast.walk(fi.node) if isinstance(n, ast.Name)}
     universe = {("notin", n) for n in names}
@@ -106,7 +129,7 @@ def notin_facts(ctx: Ctx, q, g, fresh_key_methods):
             if isinstance(t, ast.UnaryOp) and isinstance(t.op, ast.Not):
                 tests = [(t.operand, False)]
             for tt, pos in tests:
-                if isinstance(tt, ast.Compare) and len(tt.ops) == 1 and isinstance(tt.left, ast.Name) and norm(tt.comparators[0]) == "self":
+                if isinstance(tt, ast.Compare) and len(tt.ops) == 1 and isinstance(tt.left, ast.Name) and norm(tt.comparators[0]) == table:
                     is_in = isinstance(tt.ops[0], ast.In)
                     is_notin = isinstance(tt.ops[0], ast.NotIn)
                     truth = (lab == "true") == pos
@@ -199,7 +222,7 @@ def c03_r2(ctx: Ctx, rule):
     return res
 
 
-def uri_token(ctx: Ctx, fi, e, arg_ns_names, depth=0, visiting=frozenset()):
+def uri_token(ctx: Ctx, fi, e, arg_ns_names, depth=0, visiting=frozenset(), argname=None):
     """'U0' if expression `e` denotes a namespace (or uri string) provably carrying the argument namespace's URI; else a reason string."""
     if depth > 8:
         return "?depth"
@@ -211,12 +234,12 @@ def uri_token(ctx: Ctx, fi, e, arg_ns_names, depth=0, visiting=frozenset()):
         defs = all_assignments(fi.node, e.id)
         if not defs or any(d is None for d in defs):
             return "?%s has no analysable definition" % e.id
-        toks = {uri_token(ctx, fi, d, arg_ns_names, depth + 1, visiting | {e.id}) for d in defs}
+        toks = {uri_token(ctx, fi, d, arg_ns_names, depth + 1, visiting | {e.id}, argname) for d in defs}
         return "U0" if toks == {"U0"} else sorted(toks - {"U0"})[0]
     if isinstance(e, ast.Attribute):
         if e.attr in ("uri", "_uri"):
-            return uri_token(ctx, fi, e.value, arg_ns_names, depth + 1, visiting)
-        if e.attr in ("namespace", "_namespace") and isinstance(e.value, ast.Name) and e.value.id == fi.params[1]:
+            return uri_token(ctx, fi, e.value, arg_ns_names, depth + 1, visiting, argname)
+        if e.attr in ("namespace", "_namespace") and isinstance(e.value, ast.Name) and e.value.id == (argname or fi.params[1]):
             return "U0"
         if norm(e.value) == "self":
             return guarded_equal(fi, e, arg_ns_names)
@@ -224,15 +247,15 @@ def uri_token(ctx: Ctx, fi, e, arg_ns_names, depth=0, visiting=frozenset()):
     if isinstance(e, ast.Call):
         r = ctx.p.resolve_dotted(fi.module, e.func)
         if r and r[0] == "class" and r[1] == "prov.identifier.Namespace" and len(e.args) == 2:
-            return uri_token(ctx, fi, e.args[1], arg_ns_names, depth + 1, visiting)
+            return uri_token(ctx, fi, e.args[1], arg_ns_names, depth + 1, visiting, argname)
         if isinstance(e.func, ast.Attribute) and norm(e.func.value) == "self" and e.func.attr == "add_namespace" and e.args:
-            return uri_token(ctx, fi, e.args[0], arg_ns_names, depth + 1, visiting)  # by add_namespace's summary (checked below)
+            return uri_token(ctx, fi, e.args[0], arg_ns_names, depth + 1, visiting, argname)  # by add_namespace's summary (checked below)
         return "?call %s" % norm(e.func)
     if isinstance(e, ast.Subscript):
         base = norm(e.value)
         if base.startswith("self.") and base[5:] in uri_keyed_fields(ctx):
             # invariant F[k].uri == uri(k), established by checking every store into F (uri_keyed_fields)
-            return uri_token(ctx, fi, e.slice, arg_ns_names, depth + 1, visiting)
+            return uri_token(ctx, fi, e.slice, arg_ns_names, depth + 1, visiting, argname)
         if base == "self":
             return guarded_equal(fi, e, arg_ns_names)
         return "?%s" % norm(e)
@@ -308,32 +331,54 @@ def c03_r3(ctx: Ctx, rule):
     if not ns_names:
         raise AnalysisError("valid_qualified_name: the argument's namespace is never bound to a local")
 
-    def check_value(e, where):
+    def check_value(e, where, f=fi, ns=ns_names, loc_ok=local_names_ok, argn=arg, depth=0):
         e0 = e
-        if isinstance(e, ast.Name) and e.id == arg:
+        if isinstance(e, ast.Name) and e.id == argn:
             res.ob("returns the argument itself (%s)" % where, nontrivial=False)
             return
         if isinstance(e, ast.Name):
-            defs = [d for d in all_assignments(fi.node, e.id)]
+            defs = [d for d in all_assignments(f.node, e.id)]
             for d in defs:
                 if d is None:
-                    res.fail(rule.id, "rehoming::unanalysable::%s" % e.id, ctx.loc(q, e0), "cannot follow the definition of %s" % e.id)
+                    res.fail(rule.id, "rehoming::unanalysable::%s" % e.id, ctx.loc(f.qual, e0), "cannot follow the definition of %s" % e.id)
                 else:
-                    check_value(d, "%s = %s" % (e.id, norm(d)))
+                    check_value(d, "%s = %s" % (e.id, norm(d)), f, ns, loc_ok, argn, depth)
             return
         if isinstance(e, ast.Subscript):
-            loc_ok = norm(e.slice) in local_names_ok or norm(e.slice) in ("%s.localpart" % arg, "%s._localpart" % arg)
-            tok = uri_token(ctx, fi, e.value, ns_names)
-            res.ob("%s: local part from the argument=%s, namespace carries the argument's URI=%s" % (where, loc_ok, tok))
-            if not loc_ok or tok != "U0":
-                res.fail(rule.id, "rehoming::%s" % norm(e), ctx.loc(q, e),
-                         "valid_qualified_name(QualifiedName) can return %s: %s" % (norm(e), "local part is not the argument's" if not loc_ok else tok[1:]),
+            lok = norm(e.slice) in loc_ok or norm(e.slice) in ("%s.localpart" % argn, "%s._localpart" % argn)
+            tok = uri_token(ctx, f, e.value, ns, argname=argn)
+            res.ob("%s: local part from the argument=%s, namespace carries the argument's URI=%s" % (where, lok, tok))
+            if not lok or tok != "U0":
+                res.fail(rule.id, "rehoming::%s" % norm(e), ctx.loc(f.qual, e),
+                         "valid_qualified_name(QualifiedName) can return %s: %s" % (norm(e), "local part is not the argument's" if not lok else tok[1:]),
                          "a QualifiedName from another container resolves to a different URI (two distinct entities collapse, or a record changes identity on update/flatten)")
             return
         if isinstance(e, ast.Constant) and e.value is None:
             return
+        if isinstance(e, ast.Call) and isinstance(e.func, ast.Attribute) and norm(e.func.value) == "self" and depth < 2:
+            cq = ctx.p.lookup_method(NSM, e.func.attr)
+            if cq and cq != q:
+                cf = ctx.fn(cq)
+                ps = cf.params[1:]
+                amap = {ps[i]: a for i, a in enumerate(e.args) if i < len(ps)}
+                amap.update({k.arg: k.value for k in e.keywords if k.arg})
+                ns2 = {p for p, a in amap.items() if isinstance(a, ast.Name) and a.id in ns}
+                loc2 = {p for p, a in amap.items() if norm(a) in loc_ok or norm(a) in ("%s.localpart" % argn, "%s._localpart" % argn)}
+                arg2 = next((p for p, a in amap.items() if isinstance(a, ast.Name) and a.id == argn), "<none>")
+                # locals of the helper derived from its own parameters
+                for n2 in walk_function(cf.node):
+                    if isinstance(n2, ast.Assign) and len(n2.targets) == 1 and isinstance(n2.targets[0], ast.Name):
+                        v2 = norm(n2.value)
+                        if v2 in ("%s.namespace" % arg2, "%s._namespace" % arg2):
+                            ns2.add(n2.targets[0].id)
+                        if v2 in ("%s.localpart" % arg2, "%s._localpart" % arg2):
+                            loc2.add(n2.targets[0].id)
+                for n2 in walk_function(cf.node):
+                    if isinstance(n2, ast.Return) and n2.value is not None:
+                        check_value(n2.value, "%s: return %s" % (cf.name, norm(n2.value)), cf, ns2, loc2, arg2, depth + 1)
+                return
         res.ob("%s: unrecognised shape" % where)
-        res.fail(rule.id, "rehoming::shape::%s" % norm(e), ctx.loc(q, e), "returned value %s is not N[local]" % norm(e))
+        res.fail(rule.id, "rehoming::shape::%s" % norm(e), ctx.loc(f.qual, e), "returned value %s is not N[local]" % norm(e))
 
     for n in ast.walk(branch):
         if isinstance(n, ast.Return) and n.value is not None:
@@ -427,16 +472,38 @@ def c03_r6(ctx: Ctx, rule):
       decides="clause (c): 'p:local' printed from a registered prefix resolves to the registered URI even after a later clash on p")
 def c03_r7(ctx: Ctx, rule):
     res = RuleResult()
-    q = NSM + ".valid_qualified_name"
-    fi = ctx.fn(q)
-    g = get_cfg(ctx, q)
-    facts = notin_facts(ctx, q, g, set())
-    uses = [n for n in walk_function(fi.node) if isinstance(n, ast.Attribute) and n.attr == "_prefix_renamed_map" and norm(n.value) == "self"]
-    if not uses:
+    ft, owned, default = manager_fields(ctx)
+    # the memo: the owned dict the registrar fills under the *clashing* prefix but which is not the registry itself
+    memo_fields = set()
+    aq = ctx.fn(NSM + ".add_namespace")
+    for n in walk_function(aq.node):
+        if isinstance(n, ast.Assign) and isinstance(n.targets[0], ast.Subscript) and isinstance(n.targets[0].value, ast.Attribute) and norm(n.targets[0].value.value) == "self":
+            fld = n.targets[0].value.attr
+            key = n.targets[0].slice
+            if fld in owned and fld not in uri_keyed_fields(ctx) and isinstance(key, ast.Name):
+                # is the same key ever used to bind the registry (self[key])?  the registry is excluded
+                memo_fields.add(fld)
+    reg_fields = {s.field for s in mutation_sites(ctx, set(owned)) if s.func == NSM + ".add_namespace" and s.how == "setitem" and any(
+        isinstance(x, ast.Assign) and isinstance(x.targets[0], ast.Subscript) and norm(x.targets[0].value) == "self" and norm(x.targets[0].slice) == norm(s.node.targets[0].slice) and norm(x.value) == norm(s.node.value)
+        for x in walk_function(aq.node))}
+    memo_fields -= reg_fields
+    uses_all = []
+    for q in ctx.helper_closure(NSM + ".valid_qualified_name"):
+        if q.rsplit(".", 1)[1] in ("add_namespace", "add_namespaces", "set_default_namespace"):
+            continue  # the registrar fills the memo; only the resolver's *reads* are governed
+        fi = ctx.fn(q)
+        stores = {id(t.value) for n in walk_function(fi.node) if isinstance(n, ast.Assign) for t in n.targets if isinstance(t, ast.Subscript)}
+        for n in walk_function(fi.node):
+            if isinstance(n, ast.Attribute) and n.attr in memo_fields and norm(n.value) == "self" and id(n) not in stores:
+                uses_all.append((q, n))
+    if not uses_all:
         res.ob("the resolver does not consult a renamed-prefix memo", nontrivial=False)
         return res
     seen = set()
-    for u in uses:
+    for q, u in uses_all:
+        fi = ctx.fn(q)
+        g = get_cfg(ctx, q)
+        facts = notin_facts(ctx, q, g, set())
         nd = node_of(g, u)
         if nd.id in seen:
             continue
@@ -465,12 +532,16 @@ def c03_r7(ctx: Ctx, rule):
       decides="a full URI in the default namespace, or under a renamed prefix, still resolves to the name the scope handed out")
 def c03_r8(ctx: Ctx, rule):
     res = RuleResult()
-    q = NSM + ".valid_qualified_name"
-    fi = ctx.fn(q)
-    loops = [n for n in walk_function(fi.node) if isinstance(n, ast.For) and any(isinstance(c, ast.Call) and call_name(c) == "startswith" for c in ast.walk(n))]
+    q0 = NSM + ".valid_qualified_name"
+    loops = []
+    for q in ctx.helper_closure(q0):
+        fi = ctx.fn(q)
+        for n in walk_function(fi.node):
+            if isinstance(n, ast.For) and any(isinstance(c, ast.Call) and call_name(c) == "startswith" for c in ast.walk(n)):
+                loops.append((q, n))
     if not loops:
         raise AnalysisError("valid_qualified_name: URI compaction loop not found")
-    for l in loops:
+    for q, l in loops:
         it = norm(l.iter)
         ok = it in ("self.values()", "self.items()", "list(self.values())", "self")
         res.ob("compaction loop iterates %s: the whole prefix table: %s" % (it, ok))
